@@ -66,6 +66,8 @@ def load_translators():
 
 def regenerate_all():
     load_translators()
+    from . import props
+    props.load_all()   # check modules register their source-to-Coq translators in GENERATORS
     for g in GENERATORS:
         g()
     gen_extract()
